@@ -111,6 +111,19 @@ def gen_cases(rng, tier, search):
     # --- shell request sequences
     for _ in range(n_rand // 2):
         cases.append(Case({"kind": "shell", "reqs": gen_reqs(rng)}, None, tags=("shell",)))
+    # directed: the execution counter after cells that fail / succeed with and without store_history, every run
+    def rq(cell, store, mt="execute_request"):
+        return {"mtype": mt, "cell": cell, "store": store, "idents": 1, "corrupt": None, "corrupt_pos": 0}
+    err_cells = [i for i, c in enumerate(CELLS) if c[1] == "e"]
+    val_cells = [i for i, c in enumerate(CELLS) if c[1] == "v"]
+    for e in err_cells:
+        for st in (False, True):
+            cases.append(Case({"kind": "shell", "reqs": [rq(val_cells[0], True), rq(e, st), rq(val_cells[1], True),
+                                                         rq(e, not st), rq(val_cells[2], False), rq(val_cells[0], True)]},
+                              None, tags=("shell", "directed-counter")))
+    for mt in ("kernel_info_request", "is_complete_request", "complete_request", "comm_info_request", "history_request"):
+        cases.append(Case({"kind": "shell", "reqs": [rq(val_cells[0], True), rq(0, True, mt), rq(err_cells[0], False), rq(0, True, mt),
+                                                     rq(val_cells[1], True)]}, None, tags=("shell", "directed-counter")))
     # --- several tasks sending on ONE socket whose writer suspends in drain(): each message must stay contiguous
     for _ in range(20 if tier == "quick" else 200):
         senders = []
